@@ -170,4 +170,7 @@ def check(ctx: Ctx) -> str:
     aw = repo.func("async_utils:auto_await")
     s = ast.unparse(aw.node)
     ctx.check("inspect.isawaitable(value)" in s and "return await" in s and astq.returns(aw.node)[-1].value is not None and ast.unparse(astq.returns(aw.node)[-1].value) == "value", "auto_await", "async_utils:auto_await", "await only awaitables", "auto_await must await awaitables and return everything else unchanged", aw.loc())
+    from .c22 import fresh_list_rule
+
+    fresh_list_rule(ctx, "R7")
     return __doc__ or ""
